@@ -15,7 +15,7 @@ def plan(tier, seed):
     n = 3
 
     def exc():
-        return bounded.run_native("c07_es", {"max_leaves": n, "known": bounded.known_for("C07", "C07-B")})
+        return bounded.run_native("c07_es", {"max_leaves": n, "lone_every": 24 if tier == "quick" else 1, "known": bounded.known_for("C07", "C07-B")})
     pl.bounded = [("C07-B/exception type equals the structural predicate", exc)]
     pl.functions = ["luqum.check.CheckNestedFields." + f for f in ("__init__", "visit_search_field", "_check_final_operation", "visit_phrase", "visit_term", "__call__")] + \
                    ["luqum.elasticsearch.visitor.ElasticsearchQueryBuilder." + f for f in ("_is_must", "_is_should", "_yield_nested_children", "simplify_if_same")] + \
